@@ -1,4 +1,5 @@
 import Model.Mux
+import Model.MuxRx
 import Driver.Util
 namespace Driver.C01
 open Util Mux
@@ -27,6 +28,35 @@ def verdict (m : Mon) : String :=
     all but the reserved 0 and those whose request was never answered -/
 def expectedAvail (m : Mon) : Nat :=
   m.cap - 1 - (m.slot.filter fun e => e.2.2 == false).length
+
+/-- items of a scripted socket: `T` = read-deadline expiry point, otherwise hex bytes -/
+def parseItems : List String → Option Rx.Src
+  | [] => some []
+  | "T" :: r => (parseItems r).map (none :: ·)
+  | w :: r => do
+    let bs ← parseHex w
+    let rest ← parseItems r
+    pure (bs.map some ++ rest)
+
+def parseIds (w : String) (waiting : Bool) : Option Rx.Calls :=
+  if w == "-" then some [] else
+  (w.splitOn ",").foldr (fun x acc => do
+    let n ← x.toNat?
+    let r ← acc
+    pure ((n, waiting) :: r)) (some [])
+
+def rxAnswer (proto tmo waiting gone : String) (items : List String) : String :=
+  match proto.toNat?, tmo.toNat?, parseIds waiting true, parseIds gone false, parseItems items with
+  | some p, some t, some ws, some gs, some src => (Rx.recv p (t != 0) (ws ++ gs) src).text
+  | _, _, _, _, _ => "bad-op"
+
+def rdAnswer (tmo k : String) (items : List String) : String :=
+  match tmo.toNat?, k.toNat?, parseItems items with
+  | some t, some n, some src =>
+    let x := Rx.connRead (t != 0) Rx.maxAttempts src n
+    let e := match x.2.1 with | .ok => "ok" | .timeout => "tmo" | .eof => "eof"
+    s!"{x.1.length}:{e}:{Rx.hex32 (Rx.fnv32 x.1)}:{(Rx.bytes x.2.2).length}"
+  | _, _, _ => "bad-op"
 
 /-- the connection on which token `t` was requested (tokens are unique per run) -/
 def connOfToken (s : S) (t : Nat) : Nat :=
@@ -78,6 +108,12 @@ def step (s : S) (ws : List String) : S × String :=
   | ["alive", _] => (s, "open")
   -- … and every probe request sent then gets its own answer
   | ["probes", n] => (s, n)
+  -- the receive loop over a scripted socket (chunks and read-deadline expiries): `rx` = no frame body is
+  -- awaited through five deadlines (theorem C01_rx_sync: answer = the frames as sent, each to its call),
+  -- `rxk` = the excluded class (known finding), model = code as it is
+  | "rx" :: proto :: tmo :: waiting :: gone :: items => (s, rxAnswer proto tmo waiting gone items)
+  | "rxk" :: proto :: tmo :: waiting :: gone :: items => (s, rxAnswer proto tmo waiting gone items)
+  | "rd" :: tmo :: k :: items => (s, rdAnswer tmo k items)
   | _ => (s, "bad-op")
 
 end Driver.C01
